@@ -155,6 +155,12 @@ def run(ctx):
                 guarded = True
             if c['kind'] == 'Eq' and c.get('truth') is False and c.get('b') is not None and is_const(c['b'], 0):
                 guarded = True
+        if not guarded and any(c['kind'] == 'variant' and c['variants'] == ['Some'] and not q.is_call(facts.strip_refs(c['a']), 'next') and
+                               q.find_sub(c['a'], lambda s_: s_[0] == 'downcast' and s_[2] == 'Some' and q.is_call(facts.strip_refs(s_[1]), 'next')) is not None for c in f.conds(bi)):
+            # guarded by `Some(divisor)` of an Option that was stored earlier (per infoset): whether Some means "something
+            # survives" is decided where it was stored
+            ctx.anchor_lost(rule, 'truncate: the guard of the zero store', 'guarded by the Some-ness of a stored per-infoset Option')
+            continue
         ctx.verdict(guarded, rule, '%s:%s' % (rule, q.top(f.name)), 'a probability is set to 0.0 only under the test that the surviving mass of its infoset is non-zero (otherwise an infoset in which nothing exceeds the threshold is wiped)',
                     f.where(bi), 'zero store dominated by a non-zero test of the surviving total: %s' % guarded, breaks='an infoset in which no action exceeds the threshold ends up all-zero: not a distribution')
     # --- partition by the same player's infosets
